@@ -103,6 +103,8 @@ class _Loader(importlib.abc.Loader):
             if beh == 'by-payload':
                 if procedure.startswith('RAISE'):
                     raise FixtureError('fixture callouts failure')
+                if procedure.startswith('IMPERR'):
+                    raise ImportError('fixture callouts parser needs a module that is not installed')
                 if procedure.startswith('NONE'):
                     return ''
                 return json.dumps(['fixture description of ' + procedure])
